@@ -43,8 +43,19 @@ def build():
     return man
 
 
+def sanity(man):
+    """Refuse to write a manifest whose ids are not exactly the ids of properties.jsonl."""
+    import re
+    ids = [json.loads(l)['id'] for l in open(os.path.join(env.VERIF, 'properties.jsonl')) if l.strip()]
+    claimed = [c['property_id'] for c in man['checks']]
+    na = [c['property_id'] for c in man['not_applicable']]
+    assert all(re.fullmatch(r'C\d\d', x) for x in claimed + na), 'malformed property id in the registry'
+    assert sorted(claimed + na) == sorted(ids), f'claimed + not_applicable != properties: {sorted(set(ids) ^ set(claimed + na))}'
+
+
 if __name__ == '__main__':
     man = build()
+    sanity(man)
     with open(os.path.join(env.VERIF, 'MANIFEST.json'), 'w') as f:
         json.dump(man, f, indent=1)
     print('MANIFEST.json written:', len(man['checks']), 'checks,', len(man['not_applicable']), 'not applicable')
